@@ -750,20 +750,35 @@ func checkStateDirExcluded(p *core.Prog, r *core.Result, rule string) {
 			continue
 		}
 		n++
-		guarded := false
-		core.Instrs(fn, func(in ssa.Instruction) {
-			iff, ok := in.(*ssa.If)
-			if !ok {
-				return
+		hasGuard := func(f *ssa.Function) bool {
+			g := false
+			core.Instrs(f, func(in ssa.Instruction) {
+				iff, ok := in.(*ssa.If)
+				if !ok {
+					return
+				}
+				b, ok := iff.Cond.(*ssa.BinOp)
+				if !ok || (b.Op != token.EQL && b.Op != token.NEQ) {
+					return
+				}
+				if namesStateDir(b.X) || namesStateDir(b.Y) {
+					g = true
+				}
+			})
+			return g
+		}
+		guarded := hasGuard(fn)
+		if !guarded && fn.Parent() == nil {
+			// a helper that only produces the listing (sortedEntries): the functions that walk over its result decide
+			callers := p.StaticCallers(fn)
+			all := len(callers) > 0
+			for _, c := range callers {
+				if c.Parent().Pkg != fn.Pkg || !hasGuard(c.Parent()) {
+					all = false
+				}
 			}
-			b, ok := iff.Cond.(*ssa.BinOp)
-			if !ok || (b.Op != token.EQL && b.Op != token.NEQ) {
-				return
-			}
-			if namesStateDir(b.X) || namesStateDir(b.Y) {
-				guarded = true
-			}
-		})
+			guarded = all
+		}
 		r.Check(guarded, rule, fname(fn)+"#leaves-out-the-state-directory", p.InstrPos(at), "the listing branches on a comparison with the state directory (.dawn / Project.work)", "this function lists project directories for a build decision but nothing in it tells the state directory apart: the records under .dawn/build, which every build rewrites, become part of what it computes (a source directory that contains .dawn - sources=[\".\"] in the root package - is out of date on every load and an unchanged tree is rebuilt every time)")
 	}
 	r.Floor(rule, n, 3, "functions that list project directories for a build decision")
